@@ -140,20 +140,20 @@ Theorem C04rt_vec_push_wasm : forall A v l (x : A), wrep A v l ->
 Proof. exact vec_push_wasm. Qed.
 Theorem C04rt_vec_pop_wasm : forall A v l, wrep A v l ->
   match spec_vec_pop A l with
-  | SBoundsPanic => wasm_vec_pop A v = Trap TUnreachable
+  | SBoundsPanic => wasm_vec_pop A v = Throw msg_pop
   | SOk (x, l') => exists v', wasm_vec_pop A v = Ok (x, v') /\ wrep A v' l'
   end.
 Proof. exact vec_pop_wasm. Qed.
 Theorem C04rt_vec_get_wasm : forall A v l i, wrep A v l -> in32 i ->
   match spec_vec_get A l i with
   | SOk x => wasm_vec_get A v i = Ok x
-  | SBoundsPanic => wasm_vec_get A v i = Trap TUnreachable
+  | SBoundsPanic => wasm_vec_get A v i = Throw msg_oob
   end.
 Proof. exact vec_get_wasm. Qed.
 Theorem C04rt_vec_set_wasm : forall A v l i (x : A), wrep A v l -> in32 i ->
   match spec_vec_set A l i x with
   | SOk l' => exists v', wasm_vec_set A v i x = Ok (0, v') /\ wrep A v' l'
-  | SBoundsPanic => wasm_vec_set A v i x = Trap TUnreachable
+  | SBoundsPanic => wasm_vec_set A v i x = Throw msg_oob
   end.
 Proof. exact vec_set_wasm. Qed.
 (* Vec.eq = equality of the two sequences, lengths included (aeqb: ref.eq / === on elements decides equality) *)
@@ -193,15 +193,15 @@ Theorem C04rt_vec_push_backends_agree : forall A v l (x : A), wrep A v l ->
 Proof. exact vec_push_backends_agree. Qed.
 Theorem C04rt_vec_pop_backends_agree : forall A v l, wrep A v l ->
   (exists x v' l', wasm_vec_pop A v = Ok (x, v') /\ ts_vec_pop A l = Ok (x, l') /\ wrep A v' l') \/
-  (wasm_vec_pop A v = Trap TUnreachable /\ ts_vec_pop A l = Throw msg_pop).
+  (wasm_vec_pop A v = Throw msg_pop /\ ts_vec_pop A l = Throw msg_pop).
 Proof. exact vec_pop_backends_agree. Qed.
 Theorem C04rt_vec_get_backends_agree : forall A v l i, wrep A v l -> in32 i ->
   (exists x, wasm_vec_get A v i = Ok x /\ ts_vec_get A l i = Ok x) \/
-  (wasm_vec_get A v i = Trap TUnreachable /\ ts_vec_get A l i = Throw msg_oob).
+  (wasm_vec_get A v i = Throw msg_oob /\ ts_vec_get A l i = Throw msg_oob).
 Proof. exact vec_get_backends_agree. Qed.
 Theorem C04rt_vec_set_backends_agree : forall A v l i (x : A), wrep A v l -> in32 i ->
   (exists v' l', wasm_vec_set A v i x = Ok (0, v') /\ ts_vec_set A l i x = Ok (0, l') /\ wrep A v' l') \/
-  (wasm_vec_set A v i x = Trap TUnreachable /\ ts_vec_set A l i x = Throw msg_oob).
+  (wasm_vec_set A v i x = Throw msg_oob /\ ts_vec_set A l i x = Throw msg_oob).
 Proof. exact vec_set_backends_agree. Qed.
 Theorem C04rt_vec_eq_backends_agree : forall A aeqb, (forall x y : A, aeqb x y = true <-> x = y) ->
   forall same a b la lb, wrep A a la -> wrep A b lb -> (same = true -> la = lb) ->
@@ -241,7 +241,7 @@ Example C04rt_ex_vec :
     '(_, v) <- wasm_vec_push Z v 13 ;; '(_, v) <- wasm_vec_push Z v 14 ;;
     '(x, v) <- wasm_vec_pop Z v ;; y <- wasm_vec_get Z v 3 ;; '(_, v) <- wasm_vec_set Z v 0 7 ;;
     Ok (x, y, wabs Z v, wasm_vec_capacity Z v, wasm_vec_get Z v 4, wasm_vec_get Z v (-1)) in
-  run = Ok (14, 13, Some [7; 11; 12; 13], 8, Trap TUnreachable, Trap TUnreachable) /\
+  run = Ok (14, 13, Some [7; 11; 12; 13], 8, Throw msg_oob, Throw msg_oob) /\
   wrep Z (mkW [Some 1; Some 2; None; None] 2) [1; 2] /\
   wasm_vec_eq Z Z.eqb false (mkW [Some 1; Some 2; None; None] 2) (mkW [Some 1; Some 2; Some 3] 3) = Ok 0 /\
   ts_vec_eq Z Z.eqb false [1; 2] [1; 2; 3] = Ok 0 /\ ts_vec_eq Z Z.eqb false [1; 2] [1; 2] = Ok 1.
